@@ -33,6 +33,8 @@ type Alpha struct {
 	Ticks     []int    // deviation: clock ticks (seconds)
 	FreeTicks []int    // always-enabled clock ticks (seconds)
 	Restart   bool     // deviation: controller restart (fresh in-memory state)
+	// OnlyERS: offer R_ers only for replica sets whose name is listed (empty = all)
+	OnlyERS []string
 	// OnlyEDS restricts user/deviation events to these ExtendedDaemonSets (ns/name); empty = all
 	OnlyEDS []string
 	// FreeDev: deviations do not consume budget
@@ -50,6 +52,9 @@ func (a *Alpha) Enabled(s *State) []Event {
 		}
 	}
 	for _, r := range s.ERSs() {
+		if len(a.OnlyERS) > 0 && !contains(a.OnlyERS, r.Name) {
+			continue
+		}
 		evs = append(evs, Event{K: "R_ers", A: nn(r)})
 	}
 	if a.PT {
